@@ -484,6 +484,7 @@ void ClipperOffset::DoGroupOffset(Group& group)
 	for ( ; path_in_it != group.paths_in.cend(); ++path_in_it)
 	{
 		Path64::size_type pathLen = path_in_it->size();
+		if (pathLen == 0) continue; // nothing to offset (and no path[0] / norms[0])
 		path_out.clear();
 
 		if (pathLen == 1) // single point
